@@ -112,9 +112,9 @@ Proof.
   destruct (solve _ tm1) as [[[[xs1 us1] c1] tm2]|] eqn:Es; [|discriminate]. injection H as <- <- <- <- <- <-.
   assert (Hfu : (Z.max 1 (rtb_max cfg - rtb_steps (rtb_reset st)) < Z.of_nat (mpc_fuel cfg))%Z \/
                 rtb_cont (rtb_reset st) = false).
-  { left. unfold mpc_fuel. cbn [rtb_steps rtb_reset]. lia. }
+  { left. unfold mpc_fuel. cbn [rtb_steps rtb_reset rtb_init]. lia. }
   destruct (gloop_ends cfg _ _ _ None _ _ _ _ _ Hfu Hu I E) as (I1 & I2 & I3 & I4).
-  cbn [rtb_steps rtb_reset] in I2. destruct (I3 eq_refl) as [I5 _].
+  cbn [rtb_steps rtb_reset rtb_init] in I2. destruct (I3 eq_refl) as [I5 _].
   split; [|split; [exact I1|split; [exact I5|lia]]].
   eexists _, tm1. split; [|exact Es]. destruct best as [[[? ub] ?]|]; [exact I4|exact Hu].
 Qed.
